@@ -142,6 +142,9 @@ func (c *Ctx) bytesOfStr(st *State, sliceT types.Type, s T) Val {
 	c.sc.assume("(forall ((i Int)) (! (=> (and (<= 0 i) (< i " + ln + ")) (= (select " + a + " i) (sbyte " + s + " i))) :pattern ((select " + a + " i))))")
 	c.sc.assume("(forall ((i Int)) (! (and (<= 0 (select " + a + " i)) (<= (select " + a + " i) 255)) :pattern ((select " + a + " i))))")
 	c.setElemArray(st, el, 0, r, a)
+	// string(the new slice) is s again
+	c.sc.declareFun("str.of", []string{arr(sInt, sInt), sInt, sInt}, sStr)
+	c.sc.assume(eq(app("str.of", a, "0", ln), s))
 	return Val{Typ: sliceT, L: []T{r, "0", ln, ln}}
 }
 
